@@ -131,3 +131,13 @@ Print Assumptions C12_import_transparent_from.
 Print Assumptions C12_reexport_order_dependent.
 Print Assumptions C12_not_imported_invisible.
 Print Assumptions C12_imports_frame.
+
+(* ---- source tie: the hand-written model behind these theorems mirrors the files below; the digests of their
+   functions regenerated from /repo on this run equal the reviewed ones (coq/Doc/DocSrcDigest.v).  Any edit of
+   such a function breaks this obligation: the differential tie and the oracle then decide (tools/check.py). *)
+From Sylt Require Doc.SrcDigest Doc.DocSrcDigest Gen.GenSrcDigest.
+Theorem C12_model_sources_reviewed :
+  Sylt.Doc.SrcDigest.sources_reviewed ["sylt-compiler/src/name_resolution.rs"%string; "sylt-parser/src/parser.rs"%string; "sylt-parser/src/statement.rs"%string]
+    Sylt.Doc.DocSrcDigest.doc_src_digests Sylt.Gen.GenSrcDigest.src_digests = true.
+Proof. vm_compute. reflexivity. Qed.
+Print Assumptions C12_model_sources_reviewed.
